@@ -94,6 +94,17 @@ CLAIMED["C09"] = dict(
          "repaired/excluded and counted; Connectivity delays are covered by C16's check.",
     design_ref="DESIGN.md §4 C09")
 
+CLAIMED["C11"] = dict(
+    technique="Hypothesis-generated circuits with (delay, spread) edges; differential against the explicitly written "
+              "augmented ODE system (gamma chains) integrated by the reference interpreter",
+    text="Edges carry (d, s) pairs whose orders round to equal and different values, share sources/targets and are "
+         "mixed with plain and discretely delayed edges; run() with euler (exact iterates) and scipy RK45 (tolerance), "
+         "vectorize on/off, must reproduce every user variable of the explicit chain system (n=round((d/s)^2) stages of "
+         "rate n/d, unit gain).",
+    note="Only models whose delay-free version agrees with the reference are judged; Connectivity(delays, spread) is "
+         "covered by C16's check; dde_approx is exercised in the thorough tier only.",
+    design_ref="DESIGN.md §4 C11")
+
 NOT_YET = {}
 
 
